@@ -248,6 +248,14 @@ var fieldMutators = map[string]func(ctx *app.RequestContext){
 		}
 		ctx.Response.Header.Del("X-R2")
 	},
+	// a handler may append to a slice it was given; what it appends must not land in the connection's read buffer,
+	// where the next pipelined request is waiting
+	"append(Request.Body(),...)": func(ctx *app.RequestContext) {
+		_ = append(ctx.Request.Body(), "<APPENDED-BY-THE-HANDLER-OF-THE-EARLIER-REQUEST-0123456789-0123456789>"...)
+	},
+	"append(Request.Header.Peek(X-D1),...)": func(ctx *app.RequestContext) {
+		_ = append(ctx.Request.Header.Peek("X-D1"), "<APPENDED-BY-THE-HANDLER-OF-THE-EARLIER-REQUEST-0123456789-0123456789>"...)
+	},
 	"Error(err)":     func(ctx *app.RequestContext) { ctx.Error(errors.New("handler error")) },             //nolint:errcheck
 	"AbortWithError": func(ctx *app.RequestContext) { ctx.AbortWithError(500, errors.New("abort error")) }, //nolint:errcheck
 }
